@@ -51,6 +51,7 @@ type Contract struct {
 
 type CallSiteClause struct {
 	Callee string // name of the called function or method
+	Ord    int    // 0: every call; k: only the k-th call of that name in the function (source order)
 	Clause *Clause
 }
 
@@ -110,8 +111,8 @@ var (
 	reGhost    = regexp.MustCompile(`^ghost\s+var\s+(\w+)\s+(.*)$`)
 	reLoop     = regexp.MustCompile(`^loop\s+(\d+|\*)\s+(invariant|decreases)\s+(.*)$`)
 	reFuncT    = regexp.MustCompile(`^functype\s+(\w+)\s*\(`)
-	reExtern   = regexp.MustCompile(`^extern\s+(\S+?)\s*(?:\(|$)`)
-	reCallSite = regexp.MustCompile(`^callsite\s+([\w.]+)\s*:\s*(.*)$`)
+	reExtern   = regexp.MustCompile(`^extern\s+([\w/.\-]+?\.(?:\(\*?\w+\)\.)?\w+)\s*(?:\(|$)`)
+	reCallSite = regexp.MustCompile(`^callsite\s+([\w.]+)(?:#(\d+))?\s*:\s*(.*)$`)
 	reTag      = regexp.MustCompile(`^\[(\w+)\]\s*(.*)$`)
 )
 
@@ -369,11 +370,15 @@ func (P *Program) loadContractFile(file string) error {
 			if m == nil {
 				return fmt.Errorf("%s:%d: bad callsite clause %q", file, line, text)
 			}
-			c, err := mkClause(m[2], line)
+			c, err := mkClause(m[3], line)
 			if err != nil {
 				return err
 			}
-			cur.CallSites = append(cur.CallSites, &CallSiteClause{Callee: m[1], Clause: c})
+			ord := 0
+			if m[2] != "" {
+				ord, _ = strconv.Atoi(m[2])
+			}
+			cur.CallSites = append(cur.CallSites, &CallSiteClause{Callee: m[1], Ord: ord, Clause: c})
 		case "check":
 			c, err := mkClause(rest, line)
 			if err != nil {
